@@ -4,6 +4,7 @@ package main
 // (b) the self-test corpus of variants.go, applied in memory, both directions.
 
 import (
+	"encoding/json"
 	"fmt"
 	"os"
 	"path/filepath"
@@ -109,13 +110,28 @@ func thoroughExtras(c *Ctx, pr *Property, repo, verif string) (map[string]any, [
 	}
 	wg.Wait()
 	outcomes = append(outcomes, refOut...)
+	// a sample of the mutation corpus (mutation/corpus.jsonl: syntactic mutants of the reference tree that pass the
+	// project's test suite and were reported for this property when the corpus was built): each must still be reported
+	muts := mutantsFor(pr.ID, verif, 40)
+	mutOut := make([]variantOutcome, len(muts))
+	for i, m := range muts {
+		wg.Add(1)
+		go func(i int, m corpusMutant) {
+			defer wg.Done()
+			sem <- struct{}{}
+			defer func() { <-sem }()
+			mutOut[i] = runMutant(pr, m, repo)
+		}(i, m)
+	}
+	wg.Wait()
+	outcomes = append(outcomes, mutOut...)
 	tally := map[string]int{}
 	for _, o := range outcomes {
 		tally[o.Outcome]++
 	}
 	extra["selftest"] = map[string]any{
 		"note":     "variants of /repo's current source applied in memory (packages.Config.Overlay); 'killed' = a seeded break was reported, 'silent-ok' = a behaviour-preserving rewrite was not; 'missed' and 'false-alarm' are defects of the checker and do not change the verdict on /repo",
-		"variants": len(mine), "seeded_changes": len(seeds), "refactorings": len(refs), "tally": tally, "outcomes": outcomes,
+		"variants": len(mine), "seeded_changes": len(seeds), "refactorings": len(refs), "mutants": len(muts), "tally": tally, "outcomes": outcomes,
 	}
 	var bad []string
 	for _, o := range outcomes {
@@ -127,7 +143,7 @@ func thoroughExtras(c *Ctx, pr *Property, repo, verif string) (map[string]any, [
 	if len(bad) > 0 {
 		fmt.Fprintf(os.Stderr, "selftest %s: %v\n", pr.ID, bad)
 	}
-	fmt.Printf("%s selftest: %d variants + %d seeded changes + %d refactorings %v\n", pr.ID, len(mine), len(seeds), len(refs), tally)
+	fmt.Printf("%s selftest: %d variants + %d seeded changes + %d refactorings + %d mutants %v\n", pr.ID, len(mine), len(seeds), len(refs), len(muts), tally)
 	return extra, more
 }
 
@@ -156,6 +172,74 @@ func runSeed(pr *Property, sm seedMeta, repo, verif string) variantOutcome {
 		}
 	}
 	if n > 0 {
+		out.Outcome = "killed"
+	} else {
+		out.Outcome = "missed"
+	}
+	return out
+}
+
+type corpusMutant struct {
+	ID     string   `json:"id"`
+	File   string   `json:"file"`
+	Line   int      `json:"line"`
+	Func   string   `json:"func"`
+	Op     string   `json:"op"`
+	Start  int      `json:"start"`
+	Old    string   `json:"old"`
+	New    string   `json:"new"`
+	Alarms []string `json:"alarms"`
+}
+
+// mutantsFor: a deterministic sample (every k-th) of the corpus mutants that were reported for the property.
+func mutantsFor(prop, verif string, max int) []corpusMutant {
+	b, err := os.ReadFile(filepath.Join(verif, "mutation", "corpus.jsonl"))
+	if err != nil {
+		return nil
+	}
+	var all []corpusMutant
+	for _, line := range strings.Split(string(b), "\n") {
+		if strings.TrimSpace(line) == "" {
+			continue
+		}
+		var m corpusMutant
+		if json.Unmarshal([]byte(line), &m) == nil && inList(m.Alarms, prop) {
+			all = append(all, m)
+		}
+	}
+	if len(all) <= max {
+		return all
+	}
+	var out []corpusMutant
+	for i := 0; i < max; i++ {
+		out = append(out, all[i*len(all)/max])
+	}
+	return out
+}
+
+func runMutant(pr *Property, m corpusMutant, repo string) variantOutcome {
+	out := variantOutcome{ID: fmt.Sprintf("mutant:%s %s:%d %s %s", m.ID, m.File, m.Line, m.Func, m.Op), Expect: "fire (any rule of " + pr.ID + ")"}
+	path := filepath.Join(repo, m.File)
+	src, err := os.ReadFile(path)
+	if err != nil || m.Start+len(m.Old) > len(src) || string(src[m.Start:m.Start+len(m.Old)]) != m.Old {
+		out.Outcome, out.Detail = "skipped", "the mutated text is no longer at its place in the current tree"
+		return out
+	}
+	mutated := string(src[:m.Start]) + m.New + string(src[m.Start+len(m.Old):])
+	p2, err := Load(LoadOpts{Dir: repo, Overlay: map[string][]byte{path: []byte(mutated)}})
+	if err != nil {
+		out.Outcome, out.Detail = "discarded", "does not type-check on the current tree"
+		return out
+	}
+	c2 := &Ctx{P: p2, Tier: "thorough", memo: map[string]any{}}
+	for _, id := range pr.Rules {
+		for _, in := range runRule(c2, id).Instances {
+			if in.Verdict != Hold && !inList(out.Rules, id) {
+				out.Rules = append(out.Rules, id)
+			}
+		}
+	}
+	if len(out.Rules) > 0 {
 		out.Outcome = "killed"
 	} else {
 		out.Outcome = "missed"
